@@ -2,7 +2,7 @@
 from . import common, observe
 from .common import ToolError
 
-PRIM_TEXT = {"unit": "()", "str": "&'static str"}
+PRIM_TEXT = {"unit": "()", "str": "&'static str", "DateTime": "OffsetDateTime"}
 QUAL = {"String": "std::string::String", "User": "crate::types::User", "Gen": "crate::types::Gen"}
 
 
@@ -10,7 +10,7 @@ def rust_text(t, qualify=False):
     k = t["k"]
     if k == "prim":
         n = t["n"]
-        if qualify and n not in ("unit", "str", "String", "I54", "U53"):
+        if qualify and n not in ("unit", "str", "String", "I54", "U53", "DateTime"):
             return f"core::primitive::{n}"
         if qualify and n == "String":
             return QUAL["String"]
